@@ -33,7 +33,41 @@ def norm(t):
     return re.sub(r'\s+', '', t)
 
 
+def subst(node, env):
+    if isinstance(node, tuple):
+        if len(node) == 2 and node[0] == 'id' and node[1] in env:
+            return env[node[1]]
+        return tuple(subst(x, env) for x in node)
+    if isinstance(node, list):
+        return [subst(x, env) for x in node]
+    return node
+
+
+def value_helpers(region):
+    """static one-parameter helpers of the struct whose body is `if constexpr (has_facet<Policy, F>) return A; else return B;`"""
+    out = {}
+    for m in re.finditer(r'\bstatic\s+[\w:<>]+\s+(\w+)\s*\(\s*[\w:<>&\s]+?\s(\w+)\s*\)\s*\{', region):
+        name, param = m.group(1), m.group(2)
+        if name in ('publish_vptrs', 'dynamic_vptr'):
+            continue
+        b = m.end() - 1
+        try:
+            ast = mc.parse_function_body(region[b:mc.balanced(region, b, '{', '}')], ('has_facet',))
+        except mc.Unsupported:
+            continue
+        st = [x for x in ast[1] if x != ('using',)]
+        if (len(st) == 1 and st[0][0] == 'if' and st[0][1] and st[0][2][0] == 'tmpl' and st[0][2][1] == 'has_facet' and len(st[0][2][2]) == 2
+                and norm(st[0][2][2][0]) == 'Policy' and norm(st[0][2][2][1]) in FACETS and st[0][4] is not None):
+            t = [x for x in (st[0][3][1] if st[0][3][0] == 'block' else [st[0][3]]) if x != ('using',)]
+            e = [x for x in (st[0][4][1] if st[0][4][0] == 'block' else [st[0][4]]) if x != ('using',)]
+            if len(t) == 1 and len(e) == 1 and t[0][0] == 'return' and e[0][0] == 'return' and t[0][1] is not None and e[0][1] is not None:
+                out[name] = (param, FACETS[norm(st[0][2][2][1])], t[0][1], e[0][1])
+    return out
+
+
 class Lower:
+    helpers = {}
+
     def __init__(self, fname):
         self.fname = fname
         self.locals = set()
@@ -61,6 +95,11 @@ class Lower:
             return '(XMax %s %s)' % (self.e(x[2][0]), self.e(x[2][1]))
         if k == 'bin' and x[1] == '+':
             return '(XAdd %s %s)' % (self.e(x[2]), self.e(x[3]))
+        if k == 'call' and x[1][0] == 'id' and x[1][1] in Lower.helpers and len(x[2]) == 1:
+            param, facet, a, b = Lower.helpers[x[1][1]]
+            # the parameter is bound once; the argument expressions of the subset have no side effect
+            env = {param: x[2][0]}
+            return '(XIfFacet %s %s %s)' % (facet, self.e(subst(a, env)), self.e(subst(b, env)))
         self.bad('expression not in the subset', x)
 
     def seq(self, stmts):
@@ -169,6 +208,7 @@ def main():
     try:
         for fname, text, sname in (('vptr_vector', vec, 'vptr_vector'), ('vptr_map', mp, 'vptr_map')):
             reg = struct_region(text, sname)
+            Lower.helpers = value_helpers(reg)
             params, body, _ = mc.find_function(reg, r'\bstatic\s+void\s+publish_vptrs\b', fname + '::publish_vptrs')
             if norm(params) != 'ForwardIteratorfirst,ForwardIteratorlast':
                 raise mc.Unsupported('%s::publish_vptrs: parameter list changed: %s' % (fname, params))
@@ -182,8 +222,13 @@ def main():
             if not st or st[-1][0] != 'return' or st[-1][1] is None:
                 raise mc.Unsupported('%s::dynamic_vptr: does not end with a return' % fname)
             lw = Lower(fname + '::dynamic_vptr')
-            pre = lw.seq(st[:-1])
             r = st[-1][1]
+            if (fname == 'vptr_map' and len(st) == 2 and st[0][0] == 'decl' and len(st[0][2]) == 1 and st[0][2][0][1] is not None
+                    and r == ('member', ('id', st[0][2][0][0]), 'second', True)):
+                # const auto entry = vptrs.find(k); return entry->second;
+                r = ('member', st[0][2][0][1], 'second', True)
+                st = [st[-1]]
+            pre = lw.seq(st[:-1])
             if fname == 'vptr_vector':
                 if not (r[0] == 'index' and r[1] == ('id', 'vptrs')):
                     raise mc.Unsupported('vptr_vector::dynamic_vptr: no longer returns vptrs[<index>]: ' + mc.show(r))
